@@ -429,6 +429,52 @@ fn single_reads(threads: usize, rounds: usize, yield_every: u64) -> Result<(u64,
     Ok((rows * exprs.len() as u64, format!("{} reader threads x {rounds} rounds x {} single-read expressions against one writer: every value comes from one content", threads - 1, exprs.len())))
 }
 
+/// several cells updated from each other: thread t applies `x[t % k] op= *x[(t + 1) % k]` (and other operand shapes that
+/// read a second cell) in a loop, so every pair of cells is used in both directions at once. Whatever an implementation
+/// locks while it evaluates the operand, no interleaving may deadlock; with `|=` over disjoint start bits every cell ends
+/// as a union of start values that contains its own, with `=` as one of the start values.
+fn cross_cells(variant: usize, threads: usize, rounds: usize, yield_every: u64) -> Result<(u64, String), String> {
+    let k = 2 + variant % 2; // two cells or a ring of three
+    let (op, shape) = [("|=", "*b"), ("=", "*b"), ("|=", "(*b | 0)"), ("|=", "[*b][0]"), ("+=", "*b * 0"), ("|=", "*b | *a")][(variant / 2) % 6];
+    let f = parse_function(&format!("(a: mut int, b: mut int, n: int) -> int {{ i := mut 0; while *i < n {{ a {op} {shape}; i += 1; }} return *a }}")).ok_or("worker rejected")?;
+    let cells: Vec<Arc<Mut>> = (0..k).map(|i| Arc::new(Mut { var_type: Type::Int, variable: RwLock::new(Variable::Int(1 << i)) })).collect();
+    let barrier = Arc::new(Barrier::new(threads));
+    let mut handles = Vec::new();
+    for t in 0..threads {
+        let (f, barrier) = (f.clone(), barrier.clone());
+        let (a, b) = (cells[t % k].clone(), cells[(t + 1) % k].clone());
+        handles.push(std::thread::Builder::new().stack_size(64 << 20).spawn(move || -> Result<i64, String> {
+            verif::set_yield_every(if yield_every == 0 { 0 } else { yield_every + t as u64 % 2 });
+            let code = f.create_call(vec![Variable::Mut(a), Variable::Mut(b), Variable::Int(rounds as i64)]).map_err(|e| format!("{e}"))?;
+            barrier.wait();
+            match real::guarded(|| code.exec()) {
+                Ok(Ok(Variable::Int(n))) => Ok(n),
+                Ok(other) => Err(format!("worker got {other:?}")),
+                Err(p) => Err(format!("worker panicked at {}: {}", p.site(), p.short_msg())),
+            }
+        }).map_err(|e| format!("spawn: {e}"))?);
+    }
+    for h in handles {
+        h.join().map_err(|_| "worker thread died".to_string())??;
+    }
+    let all = (1i64 << k) - 1;
+    for (i, c) in cells.iter().enumerate() {
+        let v = match c.variable.read() {
+            Ok(g) => g.as_int().copied().unwrap_or(-1),
+            Err(_) => return Err("a cell's lock is poisoned".into()),
+        };
+        let ok = match op {
+            "|=" => v & !all == 0 && v & (1 << i) != 0,
+            "=" => (0..k).any(|j| v == 1 << j),
+            _ => v == 1 << i,
+        };
+        if !ok {
+            return Err(format!("cell {i} of {k} ends as {v} after `a {op} {shape}` between the cells: not a content any serial order of atomic updates produces (lost or torn update)"));
+        }
+    }
+    Ok(((threads * rounds) as u64, format!("{threads} threads x {rounds} `a {op} {shape}` over {k} cells updated from each other in both directions: no stall, contents consistent")))
+}
+
 /// one iterator value (`a~`) pulled from several threads: its position cell is advanced by the interpreter's own
 /// `i += 1`, so after T x K pulls the cursor stands at T x K (which elements each pull saw is not specified)
 fn shared_iterator(threads: usize, per_thread: usize, yield_every: u64) -> Result<(u64, String), String> {
@@ -599,6 +645,7 @@ pub fn child(spec: &str) {
             "appends" => appends(threads, size, yld),
             "reads" => single_reads(threads.max(2), size, yld),
             "printing" => printing_nested(threads.max(2), size, yld),
+            r if r.starts_with("cross") => cross_cells(r[5..].parse().unwrap_or(0), threads.max(2), size, yld),
             other => Err(format!("unknown scenario {other}")),
         }
     };
@@ -631,9 +678,11 @@ pub fn run(cfg: &Cfg, rep: &mut Report) {
         }
         let threads = *rng.pick(&[2usize, 2, 3, 4, 4, 8, 16]);
         let yld = *rng.pick(&[0usize, 0, 1, 2, 5]);
-        let (scenario, size) = match rng.below(20) {
+        let (scenario, size) = match rng.below(22) {
+            20 | 21 => (format!("cross{}", rng.below(12)), *rng.pick(&[50usize, 500, 5000])),
             16 | 17 => ("appends".to_string(), *rng.pick(&[20usize, 100, 400])),
-            18 | 19 => ("reads".to_string(), *rng.pick(&[50usize, 300, 1000])),
+            18 => ("reads".to_string(), *rng.pick(&[50usize, 300, 1000])),
+            19 => (format!("cross{}", rng.below(12)), *rng.pick(&[50usize, 500, 5000])),
             12 | 13 => ("iterator".to_string(), *rng.pick(&[50usize, 200, 800])),
             14 | 15 => ("printing".to_string(), *rng.pick(&[20usize, 100, 400])),
             0..=5 => (format!("cell{}", rng.below(OPS.len())), *rng.pick(&[3usize, 10, 50, 200, 1000])),
